@@ -13,6 +13,7 @@ import (
 	"math/rand"
 	"os"
 
+	"github.com/ohler55/ojg/gen"
 	"github.com/ohler55/ojg/jp"
 
 	jl "verif/harness/jplib"
@@ -280,6 +281,44 @@ func mutMatrix(args []string) {
 			}
 		}
 	}
+	// Modify / ModifyOne with a modifier whose result is of a kind foreign to the data (plain Go values and nil on gen data, a gen.Node on
+	// simple data), through every kind of last fragment and container arm
+	{
+		c := &ctr{n: 100}
+		fdocs := []jl.Node{
+			jl.Obj("a", c.next(), "b", jl.Arr(c.next(), c.next()), "c", jl.Obj("a", c.next())),
+			jl.Arr(c.next(), jl.Obj("a", c.next(), "b", c.next()), jl.Arr(c.next(), c.next(), c.next())),
+		}
+		fpaths := [][]jl.Frag{
+			{jl.FRoot(), jl.FChild("a")}, {jl.FRoot(), jl.FNth(0)}, {jl.FRoot(), jl.FNth(-1)}, {jl.FRoot(), jl.FWild()}, {jl.FRoot(), jl.FUnion("a", "c")}, {jl.FRoot(), jl.FUnion(0, 1)},
+			{jl.FRoot(), jl.FSlice(0, 1, A)}, {jl.FRoot(), jl.FFilter("gts", "", jl.Int(0))}, {jl.FRoot(), jl.FChild("b"), jl.FNth(1)}, {jl.FRoot(), jl.FChild("b"), jl.FWild()},
+			{jl.FRoot(), jl.FNth(1), jl.FChild("a")}, {jl.FRoot(), jl.FNth(1), jl.FWild()}, {jl.FRoot(), jl.FNth(2), jl.FSlice(1, A, A)}, {jl.FRoot(), jl.FChild("c"), jl.FUnion("a")},
+			{jl.FRoot(), jl.FWild(), jl.FNth(0)}, {jl.FRoot(), jl.FWild(), jl.FChild("a")}, {jl.FRoot(), jl.FDesc(), jl.FChild("a")}, {jl.FRoot()},
+		}
+		for _, d := range fdocs {
+			for _, p := range fpaths {
+				for _, md := range modForeign() {
+					for _, op := range []string{"Modify", "ModifyOne"} {
+						emit(0, d, Call{Op: op, Path: p, Md: md})
+					}
+				}
+			}
+		}
+	}
+	// ordering across int and float in an inner and a trailing filter (shared menu, see cmpFilters in main.go)
+	for fi, f := range cmpFilters() {
+		if fi%3 == 2 || fi%2 == 1 {
+			continue // a third of the menu is enough here: `@.a <cmp> c` and `c <cmp> @.a` alternately
+		}
+		c := &ctr{n: 100}
+		d := mkCont(cont{"arr", 7}, "num", c)
+		for _, cl := range calls([]jl.Frag{jl.FRoot(), f}, []string{"Remove", "Modify", "RemoveOne"}, false) {
+			emit(2, d, cl)
+		}
+		for _, cl := range calls([]jl.Frag{jl.FRoot(), f, jl.FChild("b")}, []string{"Set", "Del", "Modify", "DelOne"}, false) {
+			emit(2, d, cl)
+		}
+	}
 	// creation along child/index paths, and requests that cannot be served
 	c := &ctr{n: 100}
 	docs := []jl.Node{jl.Obj(), jl.Arr(), jl.Obj("a", jl.Obj("b", jl.Int(1))), jl.Obj("a", jl.Arr(c.next(), c.next())), jl.Obj("a", jl.Int(5)),
@@ -350,6 +389,21 @@ func hasSlice(path []jl.Frag) bool {
 // ---------------------------------------------------------------- replay
 func applyMod(md jl.Node) func(any) (any, bool) {
 	switch md["m"] {
+	case "foreign": // a result whose Go kind is foreign to the data (see modForeign); never converted to the data's flavour
+		var v any
+		switch md["k"] {
+		case "int":
+			v = int64(7)
+		case "str":
+			v = "fv"
+		case "arr":
+			v = []any{int64(7)}
+		case "map":
+			v = map[string]any{"x": int64(7)}
+		case "gen":
+			v = gen.Int(7)
+		}
+		return func(any) (any, bool) { return v, true }
 	case "const":
 		v, _ := jl.Build("simple", jl.Norm(md["v"]))
 		return func(any) (any, bool) { return v, true }
@@ -391,9 +445,9 @@ func apply(c Call, data any, flavour string) (root any, r string, msg string) {
 	case "RemoveOne":
 		root, err = x.RemoveOne(data)
 	case "Modify":
-		root, err = x.Modify(data, genMod(applyMod(c.Md), flavour))
+		root, err = x.Modify(data, modFor(c.Md, flavour))
 	case "ModifyOne":
-		root, err = x.ModifyOne(data, genMod(applyMod(c.Md), flavour))
+		root, err = x.ModifyOne(data, modFor(c.Md, flavour))
 	}
 	if err != nil {
 		r, msg = "err", err.Error()
@@ -407,9 +461,26 @@ func apply(c Call, data any, flavour string) (root any, r string, msg string) {
 	return
 }
 
+var noGenMod = false
+
+func modFor(md jl.Node, flavour string) func(any) (any, bool) {
+	if md["m"] == "foreign" {
+		return applyMod(md)
+	}
+	return genMod(applyMod(md), flavour)
+}
+
+// modForeign: the modifier results of a foreign kind and the values they denote.
+func modForeign() []jl.Node {
+	return []jl.Node{
+		{"m": "foreign", "k": "int", "v": jl.Int(7)}, {"m": "foreign", "k": "str", "v": jl.Str("fv")}, {"m": "foreign", "k": "arr", "v": jl.Arr(jl.Int(7))},
+		{"m": "foreign", "k": "map", "v": jl.Obj("x", jl.Int(7))}, {"m": "foreign", "k": "nil", "v": jl.Null()}, {"m": "foreign", "k": "gen", "v": jl.Int(7)},
+	}
+}
+
 // genMod makes the modifier return gen nodes on gen data.
 func genMod(f func(any) (any, bool), flavour string) func(any) (any, bool) {
-	if flavour != "gen" {
+	if flavour != "gen" || noGenMod {
 		return f
 	}
 	return func(e any) (any, bool) {
